@@ -478,6 +478,8 @@ static void do_close(void)
 	printf("r 0 shm_left=%d fds_delta=%d\n", shm_left, fds - fds_at_start);
 }
 
+static long enforce_size = 0;   /* > 0: qb_ipcs_enforce_buffer_size(svc, enforce_size) before the service runs */
+
 static int start_service(int shm)
 {
 	struct qb_ipcs_service_handlers sh = { cb_accept, cb_created, cb_msg, cb_closed, cb_destroyed };
@@ -488,6 +490,7 @@ static int start_service(int shm)
 	svc = qb_ipcs_create(svc_name, 1, shm ? QB_IPC_SHM : QB_IPC_SOCKET, &sh);
 	if (!svc) return -ENOMEM;
 	qb_ipcs_poll_handlers_set(svc, &ph);
+	if (enforce_size > 0) qb_ipcs_enforce_buffer_size(svc, (uint32_t)enforce_size);
 	res = qb_ipcs_run(svc);
 	if (res != 0) { svc = NULL; return res; }
 	return 0;
@@ -653,11 +656,15 @@ int main(void)
 		if (!strcmp(op, "open")) {
 			const char *t = NEXT(&p);
 			long max = NUM(&p, 8192);
+			long enf = NUM(&p, 0);       /* optional: size the server enforces (qb_ipcs_enforce_buffer_size) */
 			int r;
 			if (svc) do_close();
 			teardown();
+			enforce_size = enf > 0 ? enf : 0;
 			r = do_open(t && !strcmp(t, "shm"), max);
-			printf("op open %s %ld\n", is_shm ? "shm" : "sock", max);
+			enforce_size = 0;
+			if (enf > 0) printf("op open %s %ld %ld\n", is_shm ? "shm" : "sock", max, enf);
+			else printf("op open %s %ld\n", is_shm ? "shm" : "sock", max);
 			printf("r %d %ld\n", r, negotiated);
 			env_log = (r == 0);
 			print_state();
